@@ -2,6 +2,12 @@
 
 package textwire
 
+import (
+	"github.com/textwire/textwire/v2/lexer"
+	"github.com/textwire/textwire/v2/parser"
+	"github.com/textwire/textwire/v2/token"
+)
+
 // HarnessC08Bytes: every byte string of length N (all 256 byte values) lexes and parses to a program or an error.
 func HarnessC08Bytes() {
 	n := vParam("N")
@@ -216,4 +222,63 @@ func refTopLevelComma(a string) bool {
 		}
 	}
 	return false
+}
+
+// ---- the parser on an arbitrary token stream (over-approximation of the lexer) ----
+
+var c08Tokens []token.Token
+var c08Next int
+
+// hTokenSource replaces (*lexer.Lexer).NextToken in the engine for HarnessC08Tokens: it hands out the harness's
+// token list and then EOF forever. Natively the real lexer runs on a rendering of the same token list.
+func hTokenSource(l *lexer.Lexer) token.Token {
+	if c08Next < len(c08Tokens) {
+		t := c08Tokens[c08Next]
+		c08Next++
+		return t
+	}
+	return token.Token{Type: token.EOF}
+}
+
+var c08Lexemes = map[token.TokenType]string{
+	token.IDENT: "x", token.HTML: "h", token.INT: "1", token.FLOAT: "1.5", token.STR: "\"s\"",
+	token.TRUE: "true", token.FALSE: "false", token.NIL: "nil", token.IN: "in", token.DUMP: "@dump",
+}
+
+// HarnessC08Tokens: K tokens of symbolic type (any of the token types) followed by EOF: the parser returns without
+// panicking, whatever the sequence.
+func HarnessC08Tokens() {
+	k := vParam("K")
+	c08Tokens = nil
+	c08Next = 0
+	text := ""
+	for i := 0; i < k; i++ {
+		ty := token.TokenType(vInt("type", int(token.IDENT), int(token.DUMP)))
+		lit := "x"
+		if ty == token.INT {
+			lit = "1"
+		}
+		if ty == token.FLOAT {
+			lit = "1.5"
+		}
+		c08Tokens = append(c08Tokens, token.Token{Type: ty, Literal: lit})
+		if vNative() {
+			if lx, ok := c08Lexemes[ty]; ok {
+				text += lx + " "
+			} else {
+				text += token.String(ty) + " "
+			}
+		}
+	}
+	if vNative() {
+		// natively the same type sequence is rendered as source text and goes through the real lexer
+		parseStr("{{ " + text)
+		parseStr(text)
+		vCover("parsed")
+		return
+	}
+	p := parser.New(lexer.New(""), "")
+	prog := p.ParseProgram()
+	vCover("parsed")
+	vAssert(prog != nil || p.HasErrors(), "program-or-error")
 }
